@@ -109,6 +109,15 @@ void SerialAssembleAction::onLastChildFinished(bool is_succ, const Reason &reaso
     //! 其它状态，如已结束或停止，则不处理
 }
 
+//! 撤回 resume() 时重新派发、但尚未执行的子动作结束处理，停止或复位后不应再生效
+void SerialAssembleAction::cancelChildFinishRun()
+{
+    if (child_finish_run_id_ != 0) {
+        loop_.cancel(child_finish_run_id_);
+        child_finish_run_id_ = 0;
+    }
+}
+
 void SerialAssembleAction::onPause()
 {
     if (curr_action_ != nullptr)
@@ -125,7 +134,7 @@ void SerialAssembleAction::onResume()
         curr_action_->resume();
 
     } else if (child_finish_func_) {
-        loop_.runNext(std::move(child_finish_func_));
+        child_finish_run_id_ = loop_.runNext(std::move(child_finish_func_));
 
     } else {
         LogWarn("%d:%s[%s] can't resume", id(), type().c_str(), label().c_str());
@@ -136,6 +145,7 @@ void SerialAssembleAction::onStop()
 {
     stopCurrAction();
     child_finish_func_ = nullptr;
+    cancelChildFinishRun();
 
     AssembleAction::onStop();
 }
@@ -144,6 +154,7 @@ void SerialAssembleAction::onReset()
 {
     curr_action_ = nullptr;
     child_finish_func_ = nullptr;
+    cancelChildFinishRun();
 
     AssembleAction::onReset();
 }
